@@ -247,6 +247,25 @@ def paths_fanout(design):
         got = pyrtl.fanout(w)
         if got != exp:
             return dict(failed=True, observed=dict(wire=w.name, fanout_with_other_working_block=got), expected=exp)
+    # a history: the netlist is rewritten in place by passes (some replace block.logic wholesale, with the same
+    # or another number of nets) between queries - every query answers for the netlist as it is NOW
+    for pname in ('direct_connect_outputs', 'constant_propagation', 'common_subexp_elimination', 'optimize'):
+        try:
+            with pyrtl.set_working_block(block, no_sanity_check=True):
+                if pname == 'direct_connect_outputs':
+                    pyrtl.direct_connect_outputs(block)
+                else:
+                    import io as _io
+                    import contextlib as _cl
+                    with _cl.redirect_stdout(_io.StringIO()):
+                        getattr(pyrtl, pname)(block=block) if pname == 'optimize' else getattr(pyrtl.passes, pname)(block)
+        except pyrtl.PyrtlError:
+            break
+        for w in sorted(block.wirevector_set, key=lambda w: w.name):
+            exp = sum(1 for n in block.logic for a in n.args if a is w)
+            got = pyrtl.fanout(w)
+            if got != exp:
+                return dict(failed=True, observed=dict(wire=w.name, fanout=got, after=pname), expected=exp)
     return dict(failed=False, observed='ok', expected='ok', pairs=pairs)
 
 
